@@ -30,6 +30,7 @@ HEADER = (
 
 SAFE_CHARS = "abcdefghijklmnopqrstuvwxyzABCDEFGHIJKLMNOPQRSTUVWXYZ0123456789 _-+*/=<>()[]{}.,:;!?@$&|^~"
 HOSTILE_CHARS = SAFE_CHARS + "\"'\\#%`"
+LEXER_STRESS_ENDS = ["\\", "\\\\", "\\'", "\\\"", "'", "\"", "#", "\\#", "'#", "\"#", "\\n", "#\\"]
 
 
 @dataclass
@@ -129,6 +130,11 @@ class Gen:
     def str_lit(self):
         chars = HOSTILE_CHARS if self.p.hostile_strings else SAFE_CHARS
         s = self.d(st.text(alphabet=chars, max_size=8))
+        if self.p.hostile_strings and self.d(st.integers(0, 3)) == 0:
+            # literal boundaries that stress the line lexer: a closing quote right after an (escaped) backslash, quote / comment characters at either end
+            s = s[:6] + self.choice(LEXER_STRESS_ENDS)
+            if self.d(st.integers(0, 3)) == 0:
+                s = self.choice(LEXER_STRESS_ENDS) + s
         if "target" in s:
             s = s.replace("target", "tgt")
         return repr(s)
